@@ -1523,6 +1523,142 @@ Proof.
   apply ods_grid_main; assumption.
 Qed.
 
+(* ---- layout: what stands between the cells of a row and between the children of a cell ---- *)
+Lemma join_nl_cons_flat : forall x l, join_nl (x :: l) = x ++ flat_map (fun t => 10 :: t) l.
+Proof.
+  intros x l. revert x. induction l as [|y l IH]; intro x.
+  - cbn. rewrite app_nil_r. reflexivity.
+  - change (join_nl (x :: y :: l)) with (x ++ 10 :: join_nl (y :: l)).
+    rewrite (IH y). reflexivity.
+Qed.
+
+Lemma fold_xitem_after_false : forall its s,
+  fold_left xitem_after its (s, false) = (s ++ flat_map (fun t => 10 :: t) (paras_of its), false).
+Proof.
+  induction its as [|it its IH]; intro s.
+  - cbn. rewrite app_nil_r. reflexivity.
+  - cbn [fold_left]. destruct it as [p|ws| |n ps|ps]; cbn [xitem_after fst snd];
+      try (rewrite IH; reflexivity).
+    rewrite IH. unfold paras_of. cbn [flat_map app]. rewrite <- !app_assoc. reflexivity.
+Qed.
+
+(* the content loop keeps the paragraphs of the cell itself, joined by a newline, and nothing
+   else: indentation, comments, the annotation and anchored drawing objects (with every paragraph
+   they hold) contribute nothing *)
+Lemma content_loop_spec : forall its, content_loop its = join_nl (paras_of its).
+Proof.
+  unfold content_loop. induction its as [|it its IH]; [reflexivity|].
+  cbn [fold_left]. destruct it as [p|ws| |n ps|ps]; cbn [xitem_after fst snd]; try exact IH.
+  rewrite fold_xitem_after_false. unfold paras_of. cbn [flat_map app fst].
+  rewrite join_nl_cons_flat. reflexivity.
+Qed.
+
+Lemma get_datatype_items_spec : forall a its,
+  get_datatype_items a its = get_datatype a (paras_of its).
+Proof.
+  intros a its. unfold get_datatype_items, get_datatype.
+  destruct (ods_attrs a false false DEmpty []) as [[[is_string is_set] val] formula].
+  rewrite content_loop_spec. reflexivity.
+Qed.
+
+Lemma paras_of_map_XPara : forall ps, paras_of (map XPara ps) = ps.
+Proof. induction ps as [|p ps IH]; [reflexivity|]. unfold paras_of in *. cbn [map flat_map app]. rewrite IH. reflexivity. Qed.
+
+
+Theorem cell_layout_transparent : forall c, read_xcell c = read_xcell (flat_cell c).
+Proof.
+  intro c. unfold read_xcell, flat_cell. cbn [xc_attrs xc_items xc_covered].
+  rewrite !get_datatype_items_spec. rewrite paras_of_map_XPara. reflexivity.
+Qed.
+
+Theorem cell_layout_independent : forall c1 c2,
+  xc_covered c1 = xc_covered c2 -> xc_attrs c1 = xc_attrs c2 -> xc_paras c1 = xc_paras c2 ->
+  read_xcell c1 = read_xcell c2.
+Proof.
+  intros c1 c2 H1 H2 H3. rewrite (cell_layout_transparent c1), (cell_layout_transparent c2).
+  unfold flat_cell. rewrite H1, H2, H3. reflexivity.
+Qed.
+
+Lemma read_ritems_cells : forall its, forallb ritem_ok its = true ->
+  read_ritems its = map_outcome read_xcell (flat_map (fun it => match it with RCell c => [c] | _ => [] end) its).
+Proof.
+  induction its as [|it its IH]; intro H; [reflexivity|].
+  cbn [forallb] in H. apply andb_true_iff in H. destruct H as [H1 H2].
+  destruct it as [c|ws| |]; cbn [read_ritems flat_map app map_outcome]; try (apply IH; exact H2).
+  - rewrite (IH H2). reflexivity.
+  - discriminate.
+Qed.
+
+Lemma map_outcome_flat : forall cs,
+  map_outcome read_xcell (map flat_cell cs) = map_outcome read_xcell cs.
+Proof.
+  induction cs as [|c cs IH]; [reflexivity|]. cbn [map map_outcome].
+  rewrite <- cell_layout_transparent, IH. reflexivity.
+Qed.
+
+Lemma xr_cells_map_RCell : forall cs, flat_map (fun it => match it with RCell c => [c] | _ => [] end)
+                                              (map (fun c => RCell (flat_cell c)) cs) = map flat_cell cs.
+Proof. induction cs as [|c cs IH]; [reflexivity|]. cbn [map flat_map app]. rewrite IH. reflexivity. Qed.
+
+Lemma forallb_ritem_ok_flat : forall cs, forallb ritem_ok (map (fun c => RCell (flat_cell c)) cs) = true.
+Proof. induction cs as [|c cs IH]; [reflexivity|]. cbn [map forallb ritem_ok andb]. exact IH. Qed.
+
+(* reading a row is transparent to its layout: the white space and comments between the cells
+   and between the children of every cell, the annotation and the drawing objects anchored to a
+   cell change nothing — the row reads as its flat form (cells alone, paragraphs alone) *)
+Theorem row_layout_transparent : forall x, row_ok x = true -> read_xrow x = read_xrow (flat_row x).
+Proof.
+  intros x H. unfold read_xrow, flat_row. cbn [xr_attrs xr_items].
+  unfold row_ok in H. rewrite (read_ritems_cells _ H).
+  rewrite (read_ritems_cells _ (forallb_ritem_ok_flat (xr_cells x))).
+  rewrite xr_cells_map_RCell, map_outcome_flat. reflexivity.
+Qed.
+
+Theorem row_layout_independent : forall x1 x2, row_ok x1 = true -> row_ok x2 = true ->
+  xr_attrs x1 = xr_attrs x2 -> map flat_cell (xr_cells x1) = map flat_cell (xr_cells x2) ->
+  read_xrow x1 = read_xrow x2.
+Proof.
+  intros x1 x2 H1 H2 Ha Hc. rewrite (row_layout_transparent x1 H1), (row_layout_transparent x2 H2).
+  unfold flat_row. rewrite Ha. f_equal. f_equal.
+  rewrite <- !(map_map flat_cell RCell). rewrite Hc. reflexivity.
+Qed.
+
+(* anything else between the cells: the row is not read (OdsError::Mismatch, or the error of an
+   earlier cell) — the file does not open *)
+Theorem row_foreign_item_rejected : forall its1 its2 r,
+  read_ritems (its1 ++ ROther :: its2) <> Ok r.
+Proof.
+  induction its1 as [|it its1 IH]; intros its2 r; cbn [app read_ritems]; [discriminate|].
+  destruct it as [c|ws| |]; try apply IH; try discriminate.
+  destruct (read_xcell c); cbn [obind]; try discriminate.
+  specialize (IH its2).
+  destruct (read_ritems (its1 ++ ROther :: its2)) as [cs|e| |]; cbn [obind]; try discriminate.
+  exfalso. eapply IH. reflexivity.
+Qed.
+
+Lemma read_ritems_total : forall its, read_ritems its <> Panic /\ read_ritems its <> OutOfFuel.
+Proof.
+  induction its as [|it its IH]; cbn [read_ritems]; [split; discriminate|].
+  destruct it as [c|ws| |]; try exact IH; [|split; discriminate].
+  unfold read_xcell. unfold cell_repeat_attr.
+  destruct (get_attribute (xc_attrs c) a_cols_repeated) as [v|]; [destruct (parse_i32 v)|];
+    cbn [obind]; try (split; discriminate);
+    destruct (get_datatype_items (xc_attrs c) (xc_items c)); cbn [obind];
+    destruct IH as [I1 I2]; destruct (read_ritems its); cbn [obind]; split; try discriminate; tauto.
+Qed.
+
+Lemma map_outcome_flat_rows : forall xrows, forallb row_ok xrows = true ->
+  map_outcome read_xrow xrows = map_outcome read_xrow (map flat_row xrows).
+Proof.
+  induction xrows as [|x xs IH]; intro H; [reflexivity|].
+  cbn [forallb] in H. apply andb_true_iff in H. destruct H as [H1 H2].
+  cbn [map map_outcome]. rewrite (row_layout_transparent x H1), (IH H2). reflexivity.
+Qed.
+
+Theorem xtable_layout_transparent : forall xrows, forallb row_ok xrows = true ->
+  read_xtable xrows = read_xtable (map flat_row xrows).
+Proof. intros xrows H. unfold read_xtable. rewrite (map_outcome_flat_rows _ H). reflexivity. Qed.
+
 (* the loop over the children of table:table: whatever holds or accompanies the rows is
    transparent — the rows come out in document order, whatever follows the end tag is not read *)
 Lemma table_loop_rows : forall (its rest : list titem) (acc : list xrow),
@@ -1568,6 +1704,31 @@ Theorem ods_table_items_main : forall (its rest : list titem) (rows : list (row_
 Proof.
   intros its rest rows H Hr Hp He. rewrite (ods_containers_transparent its rest H).
   apply ods_xtable_main; assumption.
+Qed.
+
+(* the same with the layout of the rows: under any arrangement of row holders and neighbours AND
+   any indentation / comments between the cells and inside them, any annotation and any drawing
+   objects anchored to cells, the table reads as the spec of its flat rows *)
+Theorem ods_table_items_layout_main : forall (its rest : list titem) (rows : list (row_elem data str)),
+  forallb item_ok its = true -> forallb row_ok (rows_of its) = true ->
+  map_outcome read_xrow (map flat_row (rows_of its)) = Ok rows ->
+  counts_pos rows = true -> extent_ok rows = true ->
+  read_table_items (its ++ TClose k_table_table :: rest) = Ok (ods_spec_table rows).
+Proof.
+  intros its rest rows H Hk Hr Hp He. rewrite (ods_containers_transparent its rest H).
+  rewrite (xtable_layout_transparent _ Hk). apply ods_xtable_main; assumption.
+Qed.
+
+Theorem ods_table_layout_independent : forall (its1 its2 rest1 rest2 : list titem),
+  forallb item_ok its1 = true -> forallb item_ok its2 = true ->
+  forallb row_ok (rows_of its1) = true -> forallb row_ok (rows_of its2) = true ->
+  map flat_row (rows_of its1) = map flat_row (rows_of its2) ->
+  read_table_items (its1 ++ TClose k_table_table :: rest1) =
+  read_table_items (its2 ++ TClose k_table_table :: rest2).
+Proof.
+  intros its1 its2 rest1 rest2 H1 H2 K1 K2 E.
+  rewrite (ods_containers_transparent its1 rest1 H1), (ods_containers_transparent its2 rest2 H2).
+  rewrite (xtable_layout_transparent _ K1), (xtable_layout_transparent _ K2), E. reflexivity.
 Qed.
 
 (* an unterminated table is an error, never a loop or a panic *)
